@@ -505,6 +505,32 @@ class Flow:
             return set()
         return {("call", bb, name)}
 
+    def trail(self, place, depth=0):
+        """field names along the syntactic reference chain of a place, outermost first
+        (`_62.*` with `_62 = &mut (*_63).type_checker`, `_63 = deref_mut(&mut _57)` ... -> [.., 'type_checker'])"""
+        names = [field_name(p) for p in place[1:] if field_name(p) is not None]
+        l = place[0]
+        ds = self.defs_of.get(l, [])
+        if len(ds) != 1 or depth > 40:
+            return names
+        _, bb, j = self.defs[ds[0]]
+        if bb < 0:
+            return names
+        if j is not None:
+            rv = self.body.stmts(bb)[j][2]
+            if rv[0] in ("ref", "raw"):
+                return self.trail(rv[2], depth + 1) + names
+            if rv[0] == "use" and rv[1][0] != "k":
+                return self.trail(rv[1][1], depth + 1) + names
+            if rv[0] == "cast" and rv[2][0] != "k":
+                return self.trail(rv[2][1], depth + 1) + names
+            return names
+        t = self.body.term(bb)
+        ta = transparent_args(callee_name(t), self.extra)
+        if ta and t["args"] and t["args"][ta[0]][0] != "k":
+            return self.trail(t["args"][ta[0]][1], depth + 1) + names
+        return names
+
     # ------------------------------------------------------------ helpers for rules
     def call_origins_of_arg(self, bb, i):
         t = self.body.term(bb)
